@@ -261,11 +261,17 @@ Proof.
 Qed.
 
 (* ---------- sizes ---------- *)
-Lemma aligned_size_spec n : 0 < n <= two63 + 16 ->
+Lemma size_too_large_spec n : size_too_large n = false <-> n <= two64 - 49.
+Proof.
+  unfold size_too_large. replace (w64 (w64 (w64 (-1) - NODE) - ALLOC_ALIGN)) with (two64 - 49) by reflexivity.
+  rewrite Z.gtb_ltb. rewrite Z.ltb_ge. tauto.
+Qed.
+
+Lemma aligned_size_spec n : 0 < n <= two64 - 49 ->
   n <= aligned_size n < n + 16 /\ aligned_size n mod 16 = 0 /\ 16 <= aligned_size n.
 Proof.
   intros Hn. unfold aligned_size. rewrite NODE_eq, ALIGN_eq.
-  unfold two63 in Hn.
+  unfold two64 in Hn.
   rewrite (w64_small (n + 32)) by (unfold two64; lia).
   assert (Hp : pow2 16) by (exists 4; split; [lia | reflexivity]).
   destruct (align_forward_spec (n + 32) 16 Hp ltac:(lia) ltac:(unfold two64; lia)) as [Hr Hm].
@@ -306,7 +312,7 @@ Definition aligned_chunks (chunks : list chunk) : Prop := Forall (fun x => c_add
 
 Record raw_inv (hs he : Z) (chunks : list chunk) (bins : list (list Z)) (live : list blk) : Prop := {
   ri_pos : 0 < hs;
-  ri_top : he + NODE <= two64;
+  ri_top : he + NODE + MIN_ALLOC_SIZE <= two64;
   ri_tiled : tiled hs chunks he;
   ri_aligned : aligned_chunks chunks;
   ri_bins : bins_inv bins (free_in chunks);
@@ -354,7 +360,7 @@ Proof.
   assert (Hax : a mod 16 = 0).
   { unfold aligned_chunks in Hal. rewrite Forall_forall in Hal. apply Hal. apply in_or_app. right. left. reflexivity. }
   assert (Houts : forall y, In y pre \/ In y post -> c_addr y <> a) by (intros y Hy; eapply outside_not_x; eassumption).
-  pose proof NODE_eq as HN.
+  pose proof NODE_eq as HN. pose proof MIN_range as HMINR.
   (* x is the only chunk at address a, so its bin is determined *)
   assert (Huniq : forall j, free_in (pre ++ x :: post) a j -> j = get_bin_index (c_sz x)).
   { intros j (y & Hy & Hya & _ & Hyj).
@@ -430,7 +436,7 @@ Qed.
 
 (* ---------- Heap:alloc ---------- *)
 Lemma ha_alloc_raw_ok hs he chunks bins live n :
-  raw_inv hs he chunks bins live -> 0 <= n <= two63 + 16 ->
+  raw_inv hs he chunks bins live -> 0 <= n < two64 ->
   exists ch' b' p, ha_alloc_raw chunks bins n = (ch', b', p) /\
     ((p = 0 /\ ch' = chunks /\ b' = bins) \/
      (p <> 0 /\ raw_inv hs he ch' b' (mkblk p n :: live))).
@@ -439,6 +445,9 @@ Proof.
   destruct (n =? 0) eqn:E0.
   { eexists. eexists. eexists. split; [reflexivity|]. left. auto. }
   apply Z.eqb_neq in E0.
+  destruct (size_too_large n) eqn:Etl.
+  { eexists. eexists. eexists. split; [reflexivity|]. left. auto. }
+  apply size_too_large_spec in Etl.
   destruct (aligned_size_spec n ltac:(lia)) as (Hs1 & Hs2 & Hs3).
   set (size := aligned_size n) in *.
   set (r := match a_pass (Some (Z.to_nat BIN_MAX_LOOKUPS)) _ chunks bins _ size with
@@ -460,8 +469,7 @@ Proof.
   rewrite (size_at_found _ _ _ _ _ (find_chunk_tiled _ _ _ _ _ Ht)) in Hfit.
   destruct (tiled_mid _ _ _ _ _ Ht) as (m & Ht1 & Hm & Hsx & Ht2 & Hpre & Hpost).
   pose proof (tiled_le _ _ _ Ht1) as Hle1. pose proof (tiled_le _ _ _ Ht2) as Hle2.
-  pose proof NODE_eq as HN. pose proof MIN_range as HM.
-  assert (H63 : two63 = 9223372036854775808) by reflexivity.
+  pose proof NODE_eq as HN. pose proof MIN_range as HMINR. pose proof MIN_range as HM.
   assert (H64 : two64 = 18446744073709551616) by reflexivity.
   assert (Hp : w64 (c_addr x + NODE) = c_addr x + NODE) by (apply w64_small; lia).
   unfold wants_split. rewrite (w64_small (size + (NODE + MIN_ALLOC_SIZE))) by lia.
@@ -487,7 +495,7 @@ Lemma heap_init_ok c : hcfg_ok c ->
     raw_inv (heap_start c) (heap_end c) chunks bins [].
 Proof.
   intros (HB & Hfit & Hmin). unfold ha_heap_init, heap_start, heap_end.
-  pose proof NODE_eq as HN. pose proof ALIGN_eq as HA. rewrite HN, HA in *.
+  pose proof NODE_eq as HN. pose proof MIN_range as HMINR. pose proof ALIGN_eq as HA. pose proof MIN_range as HMr. rewrite HN, HA in *.
   assert (H64 : two64 = 18446744073709551616) by reflexivity.
   destruct (align_forward_spec (h_base c) 16 ltac:(exists 4; split; [lia | reflexivity]) ltac:(lia) ltac:(lia)) as [Hr Hm].
   set (hs := align_forward (h_base c) 16) in *.
@@ -573,7 +581,7 @@ Lemma coalesce_ok hs he A L x R B bins live i b :
             (bins_add (bins_remove_chunks bins (L ++ R)) (m' - m - NODE) m) (remove_nth i live).
 Proof.
   intros [Hpos Htop Ht Hal Hb Hl] Hfr Hux Hn Hba.
-  pose proof NODE_eq as HN.
+  pose proof NODE_eq as HN. pose proof MIN_range as HMINR.
   pose proof Ht as Ht'. apply tiled_app in Ht'. destruct Ht' as (m & HtA & Ht').
   apply tiled_app in Ht'. destruct Ht' as (m' & HtS & HtB).
   exists m, m'. split; [exact HtA|]. split; [exact HtS|]. split; [exact HtB|].
@@ -677,7 +685,7 @@ Proof.
   intros [Hpos Htop Ht Hal Hb Hl] Hn.
   destruct (lm_block _ _ _ Hl (nth_error_In _ _ Hn)) as (x & Hx & Hu & Ha & Hsz).
   destruct (in_split _ _ Hx) as (pre & post & ->).
-  exists pre, x, post. pose proof NODE_eq as HN.
+  exists pre, x, post. pose proof NODE_eq as HN. pose proof MIN_range as HMINR.
   pose proof (tiled_bounds _ _ _ Ht) as HB. rewrite Forall_forall in HB. destruct (HB x Hx) as (X0 & X1 & X2).
   assert (H64 : two64 = 18446744073709551616) by reflexivity.
   repeat split; auto; try lia.
@@ -696,7 +704,7 @@ Proof.
   intros Hinv Hn.
   destruct (live_chunk _ _ _ _ _ _ _ Hinv Hn) as (pre & x & post & -> & Hu & Ha & Hsz & Hnz & Hmis & Hw & Hfind).
   unfold ha_dealloc_raw. rewrite Hnz, Hmis, Hw, Hfind, Hu. cbn [negb].
-  pose proof NODE_eq as HN.
+  pose proof NODE_eq as HN. pose proof MIN_range as HMINR.
   assert (H64 : two64 = 18446744073709551616) by reflexivity.
   pose proof (ri_top _ _ _ _ _ Hinv) as Htop. pose proof (ri_pos _ _ _ _ _ Hinv) as Hpos.
   destruct (split_last pre) as [[pre0 pv]|] eqn:Esl.
@@ -778,9 +786,6 @@ Proof.
           w64s; feq; lia.
 Qed.
 
-Lemma aligned_size_idem s : 0 < s <= two63 + 16 -> s mod 16 = 0 -> aligned_size s = s.
-Proof. intros Hs Hm. destruct (aligned_size_spec s Hs) as (H1 & H2 & H3). lia. Qed.
-
 (* ---------- realloc building blocks ---------- *)
 (* (3) the client's view of a block changes size inside its chunk *)
 Lemma resize_live_ok hs he chunks bins live i b n :
@@ -806,7 +811,7 @@ Lemma absorb_next_ok hs he A x nx B bins live :
   raw_inv hs he (A ++ mkchunk (c_addr x) (c_sz x + NODE + c_sz nx) true :: B)
           (bins_remove bins (get_bin_index (c_sz nx)) (c_addr nx)) live.
 Proof.
-  intros [Hpos Htop Ht Hal Hb Hl] Hux Hfn. pose proof NODE_eq as HN.
+  intros [Hpos Htop Ht Hal Hb Hl] Hux Hfn. pose proof NODE_eq as HN. pose proof MIN_range as HMINR.
   pose proof Ht as Ht'. apply tiled_app in Ht'. destruct Ht' as (m & HtA & HtS).
   cbn [tiled] in HtS. destruct HtS as (E1 & E2 & E3 & E4 & HtB).
   pose proof (tiled_bounds _ _ _ HtA) as HBA. rewrite Forall_forall in HBA.
@@ -848,7 +853,7 @@ Lemma split_used_ok hs he A x B bins live size :
   raw_inv hs he (A ++ mkchunk (c_addr x) size true :: mkchunk (c_addr x + NODE + size) (c_sz x - size - NODE) false :: B)
           (bins_add bins (c_sz x - size - NODE) (c_addr x + NODE + size)) live.
 Proof.
-  intros [Hpos Htop Ht Hal Hb Hl] Hux Hsz Hs0 Hfit Hblk. pose proof NODE_eq as HN.
+  intros [Hpos Htop Ht Hal Hb Hl] Hux Hsz Hs0 Hfit Hblk. pose proof NODE_eq as HN. pose proof MIN_range as HMINR.
   destruct (tiled_mid _ _ _ _ _ Ht) as (m & Ht1 & Hm & Hs & Ht2 & Hpre & Hpost).
   assert (Hxin : In x (A ++ x :: B)) by (apply in_or_app; right; left; reflexivity).
   split; try assumption.
@@ -888,12 +893,11 @@ Qed.
 Lemma shrink_ok hs he pre x post bins live i b n size :
   raw_inv hs he (pre ++ x :: post) bins live -> c_used x = true ->
   nth_error live i = Some b -> b_addr b = c_addr x + NODE ->
-  0 < n <= size -> size mod 16 = 0 -> size <= c_sz x -> size <= two63 + 32 ->
+  0 < n <= size -> size mod 16 = 0 -> size <= c_sz x ->
   exists ch' b', ha_shrink pre x post bins size (b_addr b) = (ch', b', b_addr b) /\
                  raw_inv hs he ch' b' (mkblk (b_addr b) n :: remove_nth i live).
 Proof.
-  intros Hinv Hux Hn Hba Hn0 Hsm Hfit Hbig. pose proof NODE_eq as HN. pose proof MIN_range as HM.
-  assert (H63 : two63 = 9223372036854775808) by reflexivity.
+  intros Hinv Hux Hn Hba Hn0 Hsm Hfit. pose proof NODE_eq as HN. pose proof MIN_range as HM.
   assert (H64 : two64 = 18446744073709551616) by reflexivity.
   pose proof (ri_tiled _ _ _ _ _ Hinv) as Ht. pose proof (ri_top _ _ _ _ _ Hinv) as Htop. pose proof (ri_pos _ _ _ _ _ Hinv) as Hpos.
   destruct (tiled_mid _ _ _ _ _ Ht) as (m & Ht1 & Hm & Hs & Ht2 & Hpre & Hpost).
@@ -903,24 +907,36 @@ Proof.
     intros y Hy Hya.
     assert (y = x) by (eapply tiled_unique; [exact Ht | exact Hy | apply in_or_app; right; left; reflexivity | lia]).
     subst y. lia. }
+  assert (Hblk : forall b', In b' (mkblk (b_addr b) n :: remove_nth i live) -> b_addr b' = c_addr x + NODE -> b_size b' <= size).
+  { intros b' [<- | Hb'] Hb'a; cbn [b_size]; [lia|].
+    exfalso. pose proof (ri_live _ _ _ _ _ Hinv) as (_ & Hnd & _).
+    apply (live_other_addr live i b b' Hnd Hn Hb'). lia. }
   unfold ha_shrink, wants_split. rewrite (w64_small (size + (NODE + MIN_ALLOC_SIZE))) by lia.
   destruct ((c_sz x >? size) && (c_sz x >? size + (NODE + MIN_ALLOC_SIZE))) eqn:E.
-  - apply andb_prop in E. destruct E as [_ E]. apply Z.gtb_lt in E.
-    eexists. eexists. split; [reflexivity|].
+  2:{ eexists. eexists. split; [reflexivity|]. exact Hres. }
+  apply andb_prop in E. destruct E as [_ E]. apply Z.gtb_lt in E.
+  destruct post as [|nx post'].
+  - eexists. eexists. split; [reflexivity|].
     unfold split_addr, split_rest. w64s.
-    eapply raw_inv_eq; [| |apply (split_used_ok hs he pre x post bins _ size Hres Hux Hsm ltac:(lia) ltac:(lia))].
-    + feq; lia.
-    + feq; lia.
-    + intros b' [<- | Hb'] Hb'a; cbn [b_size]; [lia|].
-      exfalso. pose proof (ri_live _ _ _ _ _ Hinv) as (_ & Hnd & _).
-      apply (live_other_addr live i b b' Hnd Hn Hb'). lia.
-  - eexists. eexists. split; [reflexivity|]. exact Hres.
+    eapply raw_inv_eq; [| |apply (split_used_ok hs he pre x [] bins _ size Hres Hux Hsm ltac:(lia) ltac:(lia) Hblk)]; feq; lia.
+  - destruct (c_used nx) eqn:Eunx.
+    + eexists. eexists. split; [reflexivity|].
+      unfold split_addr, split_rest. w64s.
+      eapply raw_inv_eq; [| |apply (split_used_ok hs he pre x (nx :: post') bins _ size Hres Hux Hsm ltac:(lia) ltac:(lia) Hblk)]; feq; lia.
+    + (* the remainder is merged with the free successor: absorb, then split *)
+      cbn [tiled] in Ht2. destruct Ht2 as (Hnxa & Hnxs & Ht3). pose proof (tiled_le _ _ _ Ht3).
+      pose proof (absorb_next_ok hs he pre x nx post' bins _ Hres Hux Eunx) as Hab.
+      set (x' := mkchunk (c_addr x) (c_sz x + NODE + c_sz nx) true) in *.
+      pose proof (split_used_ok hs he pre x' post' _ _ size Hab eq_refl Hsm ltac:(lia) ltac:(cbn; lia) Hblk) as Hsp.
+      eexists. eexists. split; [reflexivity|].
+      unfold split_addr, split_rest. w64s.
+      eapply raw_inv_eq; [| |exact Hsp]; cbn [c_addr c_sz x']; feq; lia.
 Qed.
 
 (* realloc by moving: allocate the aligned size, then release the old block *)
 Lemma move_ok hs he chunks bins live i b n size :
   raw_inv hs he chunks bins live -> nth_error live i = Some b ->
-  0 < n <= size -> size mod 16 = 0 -> size <= two63 + 16 ->
+  0 < n <= size -> size < two64 ->
   exists ch' b' q,
     (let '(ch, b1, newp) := ha_alloc_raw chunks bins size in
      if newp =? 0 then HOk (ch, b1, 0)
@@ -932,7 +948,7 @@ Lemma move_ok hs he chunks bins live i b n size :
     ((q = 0 /\ ch' = chunks /\ b' = bins) \/
      (q <> 0 /\ raw_inv hs he ch' b' (mkblk q n :: remove_nth i live))).
 Proof.
-  intros Hinv Hn Hn0 Hsm Hbig.
+  intros Hinv Hn Hn0 Hbig.
   destruct (ha_alloc_raw_ok hs he chunks bins live size Hinv ltac:(lia)) as (ch & b1 & newp & Ha & Hcase).
   rewrite Ha. destruct Hcase as [(-> & -> & ->) | (Hnz & Hinv1)].
   - cbn [Z.eqb]. eexists. eexists. eexists. split; [reflexivity|]. left. auto.
@@ -950,7 +966,7 @@ Proof.
 Qed.
 
 Lemma ha_realloc_raw_ok hs he chunks bins live i b n :
-  raw_inv hs he chunks bins live -> nth_error live i = Some b -> 0 < n < two63 ->
+  raw_inv hs he chunks bins live -> nth_error live i = Some b -> 0 < n < two64 ->
   exists ch' b' q, ha_realloc_raw chunks bins (b_addr b) n = HOk (ch', b', q) /\
     ((q = 0 /\ ch' = chunks /\ b' = bins) \/
      (q <> 0 /\ raw_inv hs he ch' b' (mkblk q n :: remove_nth i live))).
@@ -959,12 +975,13 @@ Proof.
   destruct (live_chunk _ _ _ _ _ _ _ Hinv Hn) as (pre & x & post & -> & Hu & Ha & Hsz & Hnz & Hmis & Hw & Hfind).
   unfold ha_realloc_raw. rewrite Hnz.
   assert (E0 : (n =? 0) = false) by (apply Z.eqb_neq; lia). rewrite E0, Hmis, Hw, Hfind, Hu. cbn [negb].
-  pose proof NODE_eq as HN.
-  assert (H63 : two63 = 9223372036854775808) by reflexivity.
+  destruct (size_too_large n) eqn:Etl.
+  { eexists. eexists. eexists. split; [reflexivity|]. left. auto. }
+  apply size_too_large_spec in Etl.
+  pose proof NODE_eq as HN. pose proof MIN_range as HMINR.
   assert (H64 : two64 = 18446744073709551616) by reflexivity.
   destruct (aligned_size_spec n ltac:(lia)) as (Hs1 & Hs2 & Hs3).
   set (size := aligned_size n) in *.
-  assert (Hidem : aligned_size size = size) by (apply aligned_size_idem; lia).
   assert (Hbnz : b_addr b <> 0) by (apply Z.eqb_neq; exact Hnz).
   pose proof (ri_tiled _ _ _ _ _ Hinv) as Ht. pose proof (ri_top _ _ _ _ _ Hinv) as Htop. pose proof (ri_pos _ _ _ _ _ Hinv) as Hpos.
   (* the moving branch, stated once *)
@@ -989,12 +1006,12 @@ Proof.
     revert Ec2. w64s. intros Ec2. rewrite Z.geb_leb in Ec2. apply Z.leb_le in Ec2.
     pose proof (absorb_next_ok hs he pre x nx post' bins live Hinv Hu Ec1) as Hab.
     set (x' := mkchunk (c_addr x) (c_sz x + NODE + c_sz nx) true) in *.
-    destruct (shrink_ok hs he pre x' post' _ live i b n size Hab eq_refl Hn Ha ltac:(lia) Hs2 ltac:(cbn; lia) ltac:(lia))
+    destruct (shrink_ok hs he pre x' post' _ live i b n size Hab eq_refl Hn Ha ltac:(lia) Hs2 ltac:(cbn; lia))
       as (ch' & b' & Hsh & Hinv').
     replace (mkchunk (c_addr x) (c_sz x + c_sz nx + NODE) true) with x' by (unfold x'; f_equal; lia).
     rewrite Hsh. eexists. eexists. eexists. split; [reflexivity|]. right. split; [exact Hbnz | exact Hinv'].
   - rewrite Z.gtb_ltb in Eg. apply Z.ltb_ge in Eg.
-    destruct (shrink_ok hs he pre x post bins live i b n size Hinv Hu Hn Ha ltac:(lia) Hs2 Eg ltac:(lia))
+    destruct (shrink_ok hs he pre x post bins live i b n size Hinv Hu Hn Ha ltac:(lia) Hs2 Eg)
       as (ch' & b' & Hsh & Hinv').
     rewrite Hsh. eexists. eexists. eexists. split; [reflexivity|]. right. split; [exact Hbnz | exact Hinv'].
 Qed.
@@ -1023,15 +1040,15 @@ Proof.
 Qed.
 
 Lemma hstep_ok c s live o :
-  hcfg_ok c -> hinv c s live -> hop_dom o ->
+  hcfg_ok c -> hinv c s live -> hop_usize o ->
   exists s' live', hstep c (s, live) o = Some (s', live') /\ hinv c s' live'.
 Proof.
   intros Hc Hi Hd. destruct o as [n | i | i n | ]; cbn [hstep].
   - (* alloc *)
     destruct (ensure_init_ok c s live Hc Hi) as (s1 & He & Hin1 & Hr1).
     unfold ha_alloc. rewrite He.
-    assert (H63 : two63 = 9223372036854775808) by reflexivity. cbn [hop_dom] in Hd.
-    destruct (ha_alloc_raw_ok _ _ _ _ _ n Hr1 ltac:(lia)) as (ch & b & p & Ha & Hcase). rewrite Ha.
+    cbn [hop_usize] in Hd. unfold usize in Hd.
+    destruct (ha_alloc_raw_ok _ _ _ _ _ n Hr1 Hd) as (ch & b & p & Ha & Hcase). rewrite Ha.
     destruct Hcase as [(-> & -> & ->) | (Hnz & Hinv)].
     + cbn [Z.eqb]. eexists. eexists. split; [reflexivity|]. unfold hinv. cbn. exact Hr1.
     + apply Z.eqb_neq in Hnz. rewrite Hnz. eexists. eexists. split; [reflexivity|]. unfold hinv. cbn. exact Hinv.
@@ -1047,7 +1064,7 @@ Proof.
     unfold hinv in Hi. destruct (ha_initialized s) eqn:Ein; [|subst live; destruct i; discriminate].
     unfold ha_realloc, ha_ensure_init. rewrite Ein.
     destruct (live_chunk _ _ _ _ _ _ _ Hi Hn) as (pre & x & post & Ech & Hu & Ha & Hsz & Hnz & Hmis & Hw & Hfind).
-    cbn [hop_dom] in Hd.
+    cbn [hop_usize] in Hd. unfold usize in Hd.
     destruct (n =? b_size b) eqn:Esame.
     + (* same size: nothing happens *)
       apply Z.eqb_eq in Esame. subst n.
@@ -1072,7 +1089,7 @@ Proof.
 Qed.
 
 Lemma hrun_ok c ops : forall s live,
-  hcfg_ok c -> hinv c s live -> Forall hop_dom ops ->
+  hcfg_ok c -> hinv c s live -> Forall hop_usize ops ->
   exists s' live', hrun c (s, live) ops = Some (s', live') /\ hinv c s' live'.
 Proof.
   induction ops as [|o r IH]; intros s live Hc Hi Hd; cbn [hrun].
@@ -1087,7 +1104,7 @@ Lemma raw_inv_good c chunks bins live :
   good_blocks (h_base c) (h_size c) ALLOC_ALIGN live.
 Proof.
   intros (HB & Hfit & Hmin) [Hpos Htop Ht Hal Hb (HF & Hnd & Hcomp)].
-  pose proof NODE_eq as HN. pose proof ALIGN_eq as HA.
+  pose proof NODE_eq as HN. pose proof MIN_range as HMINR. pose proof ALIGN_eq as HA. pose proof MIN_range as HMr.
   pose proof (tiled_bounds _ _ _ Ht) as HBd. rewrite Forall_forall in HBd.
   assert (Hhs : h_base c <= heap_start c /\ heap_end c + NODE <= h_base c + h_size c).
   { unfold heap_end, heap_start in *. rewrite HA in *.
@@ -1114,7 +1131,7 @@ Qed.
 Lemma hinv_init c : hinv c ha_init_state [].
 Proof. unfold hinv. cbn. reflexivity. Qed.
 
-Theorem heap_safe_partial_proof : forall c ops, hcfg_ok c -> Forall hop_dom ops ->
+Theorem heap_safe_proof : forall c ops, hcfg_ok c -> Forall hop_usize ops ->
   exists s live, hrun c (ha_init_state, []) ops = Some (s, live) /\ heap_wf c s live /\
                  good_blocks (h_base c) (h_size c) ALLOC_ALIGN live.
 Proof.
@@ -1128,7 +1145,7 @@ Qed.
 
 (* a pointer that is not a live block is reported (double free, foreign pointer) *)
 Theorem heap_invalid_free_reported_proof : forall c ops s live p,
-  hcfg_ok c -> Forall hop_dom ops -> hrun c (ha_init_state, []) ops = Some (s, live) ->
+  hcfg_ok c -> Forall hop_usize ops -> hrun c (ha_init_state, []) ops = Some (s, live) ->
   ha_initialized s = true -> 0 < p < two64 -> ~ In p (map b_addr live) ->
   ha_dealloc s p = HPanic.
 Proof.
@@ -1145,61 +1162,12 @@ Proof.
   assert (Hx : In x (ha_chunks s)) by (rewrite Ech; apply in_or_app; right; left; reflexivity).
   pose proof (Hcomp x Hx Eu) as Hlive.
   assert (Hpx : c_addr x + NODE = p).
-  { pose proof NODE_eq as HN.
+  { pose proof NODE_eq as HN. pose proof MIN_range as HMINR.
     pose proof (tiled_bounds _ _ _ Ht) as HBd. rewrite Forall_forall in HBd. destruct (HBd x Hx) as (X0 & X1 & X2).
     unfold w64 in Hxa. unfold two64 in *. lia. }
   apply Hnot. rewrite <- Hpx. exact Hlive.
 Qed.
 
-(* ---------- refutations on the faithful model ---------- *)
-Definition hwit_small : hcfg := mkhcfg 4104 1024.
 Definition hwit_big : hcfg := mkhcfg 4104 65536.
-
-Lemma hwit_small_ok : hcfg_ok hwit_small.
-Proof. unfold hcfg_ok, hwit_small, two64. cbn. lia. Qed.
 Lemma hwit_big_ok : hcfg_ok hwit_big.
 Proof. unfold hcfg_ok, hwit_big, two64. cbn. lia. Qed.
-
-(* heap(1024): alloc(2^64-8) returns a block: size + header wraps to a 0-byte chunk *)
-Theorem heap_safe_refuted_proof : ~ heap_safe_full.
-Proof.
-  intros H.
-  pose (ops := [HAlloc (two64 - 8)]).
-  assert (Hu : Forall hop_usize ops).
-  { unfold ops, hop_usize, usize, two64. repeat constructor; lia. }
-  destruct (hrun hwit_small (ha_init_state, []) ops) as [[s live]|] eqn:E; [|vm_compute in E; discriminate].
-  specialize (H hwit_small ops s live hwit_small_ok Hu E).
-  vm_compute in E. inversion E; subst. clear E.
-  destruct H as (Hin & _ & _).
-  inversion Hin as [|x l H1 H2]; subst.
-  unfold blk_in, hwit_small in H1. cbn in H1. lia.
-Qed.
-
-Definition shrink_witness : list hop := [HAlloc 1000; HRealloc 0%nat 100; HDealloc 0%nat].
-
-Lemma shrink_witness_dom : Forall hop_dom shrink_witness.
-Proof. unfold shrink_witness, hop_dom, two63. repeat constructor; lia. Qed.
-
-(* heap(64 KiB): a=alloc(1000); a=realloc(a,100); dealloc(a) leaves two adjacent free chunks *)
-Theorem heap_no_adjacent_free_refuted_proof : ~ heap_no_adjacent_free_full.
-Proof.
-  intros H.
-  destruct (hrun hwit_big (ha_init_state, []) shrink_witness) as [[s live]|] eqn:E; [|vm_compute in E; discriminate].
-  specialize (H hwit_big shrink_witness s live hwit_big_ok shrink_witness_dom E).
-  vm_compute in E. inversion E; subst. clear E.
-  cbn in H. destruct H as [[H | H] _]; discriminate.
-Qed.
-
-(* ... and then alloc(65000), which a fresh heap satisfies, fails *)
-Theorem heap_release_all_restores_refuted_proof : ~ heap_release_all_restores_full.
-Proof.
-  intros H.
-  destruct (hrun hwit_big (ha_init_state, []) shrink_witness) as [[s live]|] eqn:E; [|vm_compute in E; discriminate].
-  assert (Hl : live = []) by (vm_compute in E; inversion E; reflexivity). subst live.
-  destruct (ha_alloc hwit_big ha_init_state 65000) as [[s0 p0]| |] eqn:E0; try (vm_compute in E0; discriminate).
-  assert (Hp0 : p0 <> 0) by (vm_compute in E0; inversion E0; subst; discriminate).
-  destruct (H hwit_big shrink_witness s 65000 p0 s0 hwit_big_ok shrink_witness_dom E ltac:(unfold two63; lia) E0 Hp0)
-    as (s' & p & Ha & Hp).
-  vm_compute in E. inversion E; subst s. clear E.
-  vm_compute in Ha. inversion Ha; subst. apply Hp. reflexivity.
-Qed.
